@@ -395,8 +395,10 @@ class Engine:
             d = s.decisions[s.dpos]
             s.dpos += 1
         else:
-            rt = s.oneshot(cond, s.FEAS_TIMEOUT)
+            # refutations (unsat) are the cheap direction on these path conditions: ask for them first and skip the
+            # satisfiability question of the other side once one side is refuted
             rf = s.oneshot(z3.Not(cond), s.FEAS_TIMEOUT)
+            rt = z3.sat if rf == z3.unsat else s.oneshot(cond, s.FEAS_TIMEOUT)
             # undecided feasibility never prunes: explore the branch (at worst a vacuous path)
             if rt == z3.unknown:
                 rt = z3.sat
@@ -431,6 +433,11 @@ class Engine:
             if not c:
                 raise PathInfeasible()
             return
+        c = z3.simplify(c)
+        if z3.is_true(c):
+            return          # e.g. t == t from a definitional result meeting its own post-condition
+        if z3.is_false(c):
+            raise PathInfeasible()
         s.pc.append(c)
 
     def side(s, kind, label, goal, lineno=None):
